@@ -265,8 +265,48 @@ def run(chk):
     chk.extra['model_mismatches'] = nmis
     chk.samples = [scen[len(scen) // 3]['lines'][-8:], scen[-1]['lines'][-6:]]
     chain(chk, exe, rng, 40 if quick else 600)
+    if not chk.violations:
+        degenerate(chk, exe, rng, 1 if quick else 8)
     if broken and not chk.violations:
         chk.violation('obligation', 'proof/correspondence obligations that no longer check:\n' + '\n'.join(broken[:30]), nofail=True)
+
+
+def degenerate(chk, exe, rng, reps):
+    """in place equals into a second object, on objects a resize history left degenerate: no ports (0x0), no frequencies, with
+    ordinary and per-frequency impedances, to every type"""
+    for _ in range(reps):
+        for t in (1, 4, 5, 2, 9):
+            for (n1, nf1, n2, nf2) in ((2, 2, 0, 2), (2, 1, 2, 0), (3, 2, 0, 0), (2, 2, 2, 2), (1, 1, 0, 1), (0, 2, 0, 2), (0, 0, 0, 0), (0, 1, 0, 3)):
+                for perF in (False, True):
+                    if t not in (1, 4, 5) and n2 != 2:
+                        continue        # the two-port-only types stay 2x2
+                    n1_ = n1 if t in (1, 4, 5) else 2
+                    bl, v = build_object(rng, 0, t, n1_, n1_, nf1, perF)
+                    if perF and not (nf1 and n1_):
+                        continue
+                    bl.append('vd 0 resize %d %d %d %d' % (t, n2, n2, nf2))
+                    both = bl + [l.replace('vd 0 ', 'vd 1 ', 1) for l in bl]
+                    for dst in range(11):
+                        s = both + ['vd 2 alloc', 'vd 2 init 5 3 3 2', 'vd 2 set_fz0 1 2 %s' % vlib.c2h(33.0),       # a dirty target
+                                    'vd 0 convert 0 %d' % dst, 'vd 1 convert 2 %d' % dst, 'vd 0 digest', 'vd 2 digest', 'vd 0 has_fz0', 'vd 2 has_fz0',
+                                    'vd 0 free', 'vd 1 free', 'vd 2 free']
+                        out, rc, err = vlib.run_lines(exe, s)
+                        chk.evaluations += 1
+                        tag = 'type %d, %dx%d with %d frequencies resized to %dx%d with %d, %s impedances, to type %d' % (
+                            t, n1_, n1_, nf1, n2, n2, nf2, 'per-frequency' if perF else 'ordinary', dst)
+                        if rc != 0 or len(out) != len(s):
+                            chk.violation('sanitizer-degenerate', '%s: crash / sanitizer report:\n%s' % (tag, err[-1200:]), s[:len(out) + 1])
+                            return
+                        r_in, r_out = out[-9], out[-8]
+                        if r_in.split()[0] != r_out.split()[0]:
+                            chk.violation('degenerate-rc', '%s: in place answers %s, into a second object %s' % (tag, r_in[:40], r_out[:40]), s)
+                            return
+                        if r_in.startswith('ok') and (out[-7] != out[-6] or out[-5] != out[-4]):
+                            chk.violation('degenerate-differs', '%s: in place and into a second object differ\n  in place: %s (%s)\n  second  : %s (%s)' % (
+                                tag, out[-7][:300], out[-5], out[-6][:300], out[-4]), s)
+                            return
+                        chk.count('degenerate_' + ('ok' if r_in.startswith('ok') else 'refused'))
+                        chk.distinct.add(('degenerate', t, n2, nf2, perF, dst))
 
 
 def chain(chk, exe, rng, count):
